@@ -201,6 +201,7 @@ func (s *Server) nextRequest() (func() error, error) {
 	defer s.mu.Unlock()
 	for s.ch != nil && s.inq.IsEmpty() {
 		s.mu.Unlock()
+		verifPointS("srv.next.park", "")
 		<-s.work
 		verifPointS("srv.next.wake", "")
 		s.mu.Lock()
